@@ -8,7 +8,7 @@ import eqsig
 from eqsig import displacements as disp_mod
 from eqsig import im
 
-from pbt import gen
+from pbt import core, gen
 from pbt.core import clause
 
 PROPERTY = "C08"
@@ -87,8 +87,8 @@ def increments(case, ctx):
     else:
         tol_v = 4 * EPS * (np.abs(v[1:]) + np.abs(v[:-1]) + np.abs(np.asarray(inc_v[0], dtype=float)))
         tol_d = 4 * EPS * (np.abs(d[1:]) + np.abs(d[:-1]) + np.abs(np.asarray(inc_d[0], dtype=float)))
-    ok_v = [bool(np.all(np.abs(dv - iv) <= tol_v)) for iv in inc_v]
-    ok_d = [bool(np.all(np.abs(dd - idd) <= tol_d)) for idd in inc_d]
+    ok_v = [bool(np.all(np.abs(dv - iv) <= tol_v + core.TINY)) for iv in inc_v]
+    ok_d = [bool(np.all(np.abs(dd - idd) <= tol_d + core.TINY)) for idd in inc_d]
     if not any(ok_v):
         j = int(np.argmax(np.abs(dv - inc_v[0]) - tol_v))
         ctx.fail("velocity increment %d: got %r, expected %r (trap=%s, dt=%r)" % (
@@ -123,6 +123,20 @@ def object_level(case, ctx):
     ctx.equal(v, v2, "AccSignal.velocity vs array level")
     ctx.equal(d, d2, "AccSignal.displacement vs array level")
     ctx.shape(v, (n,), "velocity")
+    for trap in (True, False):
+        v3, d3 = ctx.lib(disp_mod.velocity_and_displacement_from_acceleration, np.array(arg), dt, trap=trap)
+        v4, d4 = ctx.lib(disp_mod.calc_velo_and_disp_from_accel_arr, np.array(arg), dt, trap=trap)
+        ctx.equal(v3, v4, "velocity_and_displacement_from_acceleration vs calc_velo_and_disp_from_accel_arr (velocity, trap=%s)" % trap)
+        ctx.equal(d3, d4, "velocity_and_displacement_from_acceleration vs calc_velo_and_disp_from_accel_arr (displacement, trap=%s)" % trap)
+    if not case.get("trap", True):
+        # switching trapezoid integration off at object level: on a fresh object and on one whose default series were already read
+        for label, other in (("fresh object", ctx.lib(eqsig.AccSignal, arg, dt)), ("object with cached default series", asig)):
+            ctx.lib(other.generate_displacement_and_velocity_series, trap=False)
+            ctx.equal(other.velocity, v4, "generate_displacement_and_velocity_series(trap=False) velocity vs array level (%s)" % label)
+            ctx.equal(other.displacement, d4, "generate_displacement_and_velocity_series(trap=False) displacement vs array level (%s)" % label)
+            ctx.lib(other.generate_displacement_and_velocity_series, trap=True)
+            ctx.equal(other.velocity, v2, "generate_displacement_and_velocity_series(trap=True) restores the trapezoid velocity (%s)" % label)
+            ctx.equal(other.displacement, d2, "generate_displacement_and_velocity_series(trap=True) restores the trapezoid displacement (%s)" % label)
     pga = ctx.lib(lambda: asig.pga)
     pgv = ctx.lib(lambda: asig.pgv)
     pgd = ctx.lib(lambda: asig.pgd)
